@@ -63,10 +63,13 @@ type c37Outcome struct {
 	Kind  string // body, parse-error, sample-limit, label-limit, scrape-failure, stop
 	Lines func(step int) []c37Line
 	Raw   func(step int) string // overrides the rendering of Lines (parse error)
+	// failing bodies: series the loop has already read (and appended, before the rollback) when
+	// the failure is detected
+	ReadBeforeFailure []string
 }
 
 const (
-	c37SampleLimit = 3
+	c37SampleLimit = 2 // bodies {x,z} and dup{x@,x@} sit exactly on the limit
 	c37LabelLimit  = 4 // __name__, instance, job + one own label
 	c37IntervalMs  = 15000
 )
@@ -126,13 +129,13 @@ func c37Outcomes() []c37Outcome {
 		b.Val += 0.5
 		return []c37Line{a, b}
 	}})
-	out = append(out, c37Outcome{Name: "parse-error{x,!,z}", Kind: "parse-error", Raw: func(step int) string {
+	out = append(out, c37Outcome{Name: "parse-error{x,!,z}", Kind: "parse-error", ReadBeforeFailure: []string{c37Key("x")}, Raw: func(step int) string {
 		return fmt.Sprintf("x %g\n!!! not a sample\nz %g\n", v(step, 1), v(step, 3))
 	}})
-	out = append(out, c37Outcome{Name: "sample-limit{x,z,w,v}", Kind: "sample-limit", Lines: func(step int) []c37Line {
+	out = append(out, c37Outcome{Name: "sample-limit{x,z,w,v}", Kind: "sample-limit", ReadBeforeFailure: []string{c37Key("x"), c37Key("z")}, Lines: func(step int) []c37Line {
 		return []c37Line{ser(step, "x", 0), ser(step, "z", 0), ser(step, "w", 0), ser(step, "v", 0)}
 	}})
-	out = append(out, c37Outcome{Name: "label-limit{z,q{a,b}}", Kind: "label-limit", Lines: func(step int) []c37Line {
+	out = append(out, c37Outcome{Name: "label-limit{z,q{a,b}}", Kind: "label-limit", ReadBeforeFailure: []string{c37Key("z")}, Lines: func(step int) []c37Line {
 		return []c37Line{ser(step, "z", 0), {Series: `q{a="1",b="2"}`, Key: c37Key("q", "a", "1", "b", "2"), Val: v(step, 6)}}
 	}})
 	out = append(out, c37Outcome{Name: "scrape-failure", Kind: "scrape-failure"})
@@ -167,6 +170,19 @@ type c37Model struct {
 	// series exposed by the previous scrape when that one succeeded (for scrape_series_added)
 	prevExposed map[string]bool
 	prevOK      bool
+	everSeen    map[string]bool
+	scrapes     int // scrape cycles so far
+	// shadow of the implementation's staleness tracking, used ONLY to recognise the known
+	// deviations (see c37Dev) so that they are reported under their own signatures and the
+	// exploration can continue past them; the expectation itself never depends on it
+	implPrev map[string]bool
+}
+
+// c37Dev is one known deviation of the implementation from the statement at this step.
+type c37Dev struct {
+	Marker  string // the staleness marker concerned
+	Missing bool   // true: demanded by the statement but not written; false: written but not demanded
+	Sig     string
 }
 
 type c37Expect struct {
@@ -176,6 +192,8 @@ type c37Expect struct {
 	Scraped, PostRelabel       float64 // -1: not checked
 	SeriesAddedLo, SeriesAddHi float64
 	Stop                       bool
+	NoScrapeYet                bool
+	Known                      []c37Dev
 }
 
 func c37S(key string, t int64, v float64) string {
@@ -189,6 +207,10 @@ var c37Stale = math.Float64frombits(value.StaleNaN)
 
 func (m *c37Model) step(o *c37Outcome, step int, scrapeMs int64) c37Expect {
 	e := c37Expect{Scraped: -1, PostRelabel: -1}
+	trackedBefore := map[string]bool{}
+	for k := range m.tracked {
+		trackedBefore[k] = true
+	}
 	staleAll := func(t int64) {
 		for _, k := range vx.SortedKeys(m.tracked) {
 			e.Samples = append(e.Samples, c37S(k, t, c37Stale))
@@ -197,6 +219,7 @@ func (m *c37Model) step(o *c37Outcome, step int, scrapeMs int64) c37Expect {
 	}
 	switch o.Kind {
 	case "body":
+		m.scrapes++
 		lines := o.Lines(step)
 		exposed := map[string]bool{}
 		newTracked := map[string]bool{}
@@ -229,24 +252,28 @@ func (m *c37Model) step(o *c37Outcome, step int, scrapeMs int64) c37Expect {
 		}
 		m.tracked = newTracked
 		e.Up, e.Scraped, e.PostRelabel = 1, float64(len(lines)), float64(post)
-		nNew := 0
+		// scrape_series_added is documented as approximate ("new" is relative to the loop's
+		// series cache): at least the never-seen series, at most those not exposed by the
+		// previous scrape when that one succeeded with a non-empty body, else all exposed.
+		lo, hi := 0, 0
 		for k := range exposed {
-			if !m.prevExposed[k] {
-				nNew++
+			if !m.everSeen[k] {
+				lo++
+			}
+			if !(m.prevOK && len(m.prevExposed) > 0 && m.prevExposed[k]) {
+				hi++
 			}
 		}
-		if m.prevOK {
-			e.SeriesAddedLo, e.SeriesAddHi = float64(nNew), float64(nNew)
-		} else {
-			// after a failed scrape (or at the start) "new" is only bounded: the documentation
-			// calls scrape_series_added approximate
-			e.SeriesAddedLo, e.SeriesAddHi = 0, float64(len(exposed))
-			if m.prevExposed == nil {
-				e.SeriesAddedLo = float64(len(exposed))
-			}
+		e.SeriesAddedLo, e.SeriesAddHi = float64(lo), float64(hi)
+		if m.everSeen == nil {
+			m.everSeen = map[string]bool{}
+		}
+		for k := range exposed {
+			m.everSeen[k] = true
 		}
 		m.prevExposed, m.prevOK = exposed, true
 	case "parse-error", "sample-limit", "label-limit", "scrape-failure":
+		m.scrapes++
 		staleAll(scrapeMs)
 		e.Up = 0
 		e.SeriesAddedLo, e.SeriesAddHi = 0, 4
@@ -257,14 +284,72 @@ func (m *c37Model) step(o *c37Outcome, step int, scrapeMs int64) c37Expect {
 			// documented: parsing continues so that the totals are still reported
 			e.Scraped, e.PostRelabel = float64(len(o.Lines(step))), float64(len(o.Lines(step)))
 		}
-		if m.prevExposed == nil {
-			m.prevExposed = map[string]bool{}
+		if m.everSeen == nil {
+			m.everSeen = map[string]bool{}
+		}
+		for _, k := range o.ReadBeforeFailure {
+			m.everSeen[k] = true // may or may not stay in the loop's cache
 		}
 		m.prevOK = false
 	case "stop":
 		staleAll(-1) // time of the marker: when the next scrape would have happened (not controlled here)
-		e.Stop = true
+		e.Stop = m.scrapes > 0 // a target removed before its first scrape leaves nothing to mark
+		e.NoScrapeYet = m.scrapes == 0
 	}
+	// known deviations (shadow): the implementation writes markers for implPrev minus the series it
+	// tracked in this cycle, where a failing body's series read before the failure count as tracked
+	// and series exposed with an explicit timestamp do not (unless timestamp tracking is on)
+	implCur := map[string]bool{}
+	withTS := map[string]bool{}
+	switch o.Kind {
+	case "body":
+		for _, l := range o.Lines(step) {
+			if l.Key == "" {
+				continue
+			}
+			if l.TSOff == 0 || m.trackTS {
+				implCur[l.Key] = true
+			} else {
+				withTS[l.Key] = true
+			}
+		}
+	default:
+		for _, k := range o.ReadBeforeFailure {
+			implCur[k] = true
+		}
+	}
+	mt := scrapeMs
+	if o.Kind == "stop" {
+		mt = -1
+	}
+	want := map[string]bool{}
+	for _, x := range e.Samples {
+		want[x] = true
+	}
+	if !(o.Kind == "stop" && m.scrapes == 0) {
+		for _, k := range vx.SortedKeys(m.implPrev) {
+			mk := c37S(k, mt, c37Stale)
+			if implCur[k] || want[mk] {
+				continue
+			}
+			d := c37Dev{Marker: mk}
+			switch {
+			case withTS[k]:
+				d.Sig = "staleness-marker-unexpected-series-now-has-explicit-timestamp"
+			case !trackedBefore[k]:
+				d.Sig = "staleness-marker-for-series-of-rolled-back-failed-body"
+			default:
+				continue
+			}
+			e.Known = append(e.Known, d)
+		}
+		for _, k := range o.ReadBeforeFailure {
+			if mk := c37S(k, mt, c37Stale); want[mk] && m.implPrev[k] {
+				e.Known = append(e.Known, c37Dev{Marker: mk, Missing: true, Sig: "staleness-marker-missing-after-partially-read-failed-body"})
+			}
+		}
+	}
+	m.implPrev = implCur
 	sort.Strings(e.Samples)
 	return e
 }
@@ -431,6 +516,33 @@ func c37Check(e c37Expect, obs c37Obs, scrapeMs int64) (sig, msg string) {
 			}
 		}
 	}
+	if strings.Join(got, "\n") != strings.Join(e.Samples, "\n") && len(e.Known) > 0 {
+		// does the observation equal the statement's expectation modified by exactly the known
+		// deviations that apply here? then report those (soft) and carry on
+		drop, add := map[string]bool{}, []string{}
+		for _, d := range e.Known {
+			if d.Missing {
+				drop[d.Marker] = true
+			} else {
+				add = append(add, d.Marker)
+			}
+		}
+		var alt []string
+		for _, x := range e.Samples {
+			if !drop[x] {
+				alt = append(alt, x)
+			}
+		}
+		alt = append(alt, add...)
+		sort.Strings(alt)
+		if strings.Join(got, "\n") == strings.Join(alt, "\n") {
+			var sigs []string
+			for _, d := range e.Known {
+				sigs = append(sigs, d.Sig)
+			}
+			return "SOFT:" + strings.Join(sigs, ","), fmt.Sprintf("storage received\n  %s\nexpected\n  %s", strings.Join(got, "\n  "), strings.Join(e.Samples, "\n  "))
+		}
+	}
 	if strings.Join(got, "\n") != strings.Join(e.Samples, "\n") {
 		sig = "stored-samples-differ"
 		gs, es := map[string]bool{}, map[string]bool{}
@@ -474,6 +586,12 @@ func c37Check(e c37Expect, obs c37Obs, scrapeMs int64) (sig, msg string) {
 	if e.Stop {
 		return "", ""
 	}
+	if e.NoScrapeYet {
+		if len(obs.Report) > 0 {
+			return "report-series-without-scrape", fmt.Sprintf("report series stored although the target was never scraped: %v", obs.Report)
+		}
+		return "", ""
+	}
 	for _, rn := range c37ReportNames {
 		v, ok := obs.Report[rn]
 		if !ok {
@@ -511,15 +629,6 @@ type c37Replay struct {
 	History []string `json:"history"`
 }
 
-// c37Precondition refines the signature of a missing-marker violation: "-after-partial-body"
-// when the failing scrape's body had exposed the series before the point of failure.
-func c37Partial(o *c37Outcome, missingMsg string) bool {
-	if o.Kind != "parse-error" && o.Kind != "sample-limit" && o.Kind != "label-limit" {
-		return false
-	}
-	return true
-}
-
 func c37RunHistory(r *vx.Run, cfg c37Cfg, alpha []c37Outcome, hist []int, outcomes *atomic.Int64) {
 	sys, err := c37New(cfg)
 	if err != nil {
@@ -539,10 +648,25 @@ func c37RunHistory(r *vx.Run, cfg c37Cfg, alpha []c37Outcome, hist []int, outcom
 			return
 		}
 		sig, msg := c37Check(exp, obs, scrapeMs)
-		if sig != "" {
-			if sig == "staleness-marker-missing" && c37Partial(o, msg) {
-				sig += "-after-partially-read-failed-body"
+		if strings.HasPrefix(sig, "SOFT:") {
+			// known deviation(s): report and continue with the rest of the history; the report
+			// series of this step are still checked
+			for _, sg := range strings.Split(strings.TrimPrefix(sig, "SOFT:"), ",") {
+				r.Violation(sg, fmt.Sprintf("step %d (%s) of history %v, %s, scrape time %d:\n%s", step+1, o.Name, names, cfg, scrapeMs, msg), c37Replay{cfg, names})
 			}
+			exp2 := exp
+			exp2.Samples = obs.Samples
+			if exp.Stop {
+				exp2.Samples = nil
+				for _, g := range obs.Samples {
+					at, eq := strings.LastIndex(g, " @"), strings.LastIndex(g, " =")
+					exp2.Samples = append(exp2.Samples, g[:at]+" @-1"+g[eq:])
+				}
+			}
+			exp2.Known = nil
+			sig, msg = c37Check(exp2, obs, scrapeMs)
+		}
+		if sig != "" {
 			r.Violation(sig, fmt.Sprintf("step %d (%s) of history %v, %s, scrape time %d:\n%s", step+1, o.Name, names, cfg, scrapeMs, msg), c37Replay{cfg, names})
 			return
 		}
